@@ -34,6 +34,7 @@ def run(ck):
     ck.rule("C13.R3", "single-line formatters end each Ok path with exactly one newline write", floor=3)
     ck.rule("C13.R4", "writer combinators route as their definition denotes", floor=9)
     ck.rule("C13.R11", "every span in scope is written with its fields: the only reason not to write a span's stored fields is that there are none", floor=3)
+    ck.rule("C13.R12", "the set of configured span lifecycle points is what the user's expression denotes: FmtSpan's operators compute the operator they are named after", floor=6)
     ck.rule("C13.R10", "every field a formatter's visitor is handed ends up in the record: no record_* path drops a field (except after an earlier write error)", floor=4)
     ck.rule("C13.R9", "formatter options have the polarity of their name: nothing is written because a display_* flag is off", floor=4)
     ck.rule("C13.R8", "a formatting panic the caller caught does not silence the thread: get_default's re-entrancy flag is given back on unwinding (as C02.R6)", floor=3)
@@ -51,6 +52,8 @@ def run(ck):
     r9(ck, F)
     r10(ck, F)
     r11(ck, F)
+    r12(ck, F)
+    r12b(ck, F)
     from rules import C02
     C02.r6(ck, F, rid="C13.R8")
 
@@ -437,6 +440,61 @@ def r9(ck, F):
             ck.bad("C13.R9", key, where(b.raw["sp"]), "; ".join(sorted(bad)[:3]), fn=b.path)
         else:
             ck.ok("C13.R9", key, fn=b.path, detail=sorted(seen))
+
+
+def r12(ck, F):
+    """`each configured span lifecycle point`: the configuration is a FmtSpan value built with |, &, ^ and their assigning
+    forms. Each of the six impls combines the two bit sets with exactly the operator of its trait (a `|=` that toggles
+    clears the bits two overlapping constants share: `ENTER |= ACTIVE` would lose `enter`)."""
+    WANT = {"BitOr": "BitOr", "BitAnd": "BitAnd", "BitXor": "BitXor", "BitOrAssign": "BitOr", "BitAndAssign": "BitAnd", "BitXorAssign": "BitXor"}
+    for i in F.impls:
+        tr = i.get("trait") or ""
+        if not tr.startswith("core::ops::bit::") or i["self_ty"] != "tracing_subscriber::fmt::format::FmtSpan":
+            continue
+        name = tr.rsplit("::", 1)[-1]
+        for m, pth in i["methods"].items():
+            b = F.body(pth)
+            key = "FmtSpan: %s computes %s" % (name, WANT.get(name))
+            if b is None or name not in WANT:
+                continue
+            ops = [st["rv"]["bin"] for _, _, st in b.stmts() if st["k"] == "assign" and "bin" in st.get("rv", {})]
+            if ops == [WANT[name]]:
+                ck.ok("C13.R12", key, fn=b.path)
+            else:
+                ck.bad("C13.R12", key, where(b.raw["sp"]), "the body combines the two sets with %s" % ops, fn=b.path)
+
+
+def r12b(ck, F):
+    """The rest of the configuration's meaning: four lifecycle points are four distinct single bits, the named unions are
+    the unions their names say, `contains` is the subset test, and each trace_<point>() asks for its own point."""
+    P = "tracing_subscriber::fmt::format::"
+    c = {n: (F.consts.get(P + "FmtSpan::" + n) or {}).get("val", {}).get("int") for n in ("NEW", "ENTER", "EXIT", "CLOSE", "NONE", "ACTIVE", "FULL")}
+    key = "FmtSpan constants: four distinct bits; NONE empty, ACTIVE = ENTER|EXIT, FULL = all four"
+    base = [c[n] for n in ("NEW", "ENTER", "EXIT", "CLOSE")]
+    ok = all(isinstance(v, int) for v in c.values()) and all(v and v & (v - 1) == 0 for v in base) and len(set(base)) == 4 and c["NONE"] == 0 \
+        and c["ACTIVE"] == c["ENTER"] | c["EXIT"] and c["FULL"] == base[0] | base[1] | base[2] | base[3]
+    if ok:
+        ck.ok("C13.R12", key, detail=c)
+    else:
+        ck.bad("C13.R12", key, P + "FmtSpan", "constants evaluate to %s" % c)
+    b = F.body(P + "FmtSpan::contains")
+    if ck.anchor("C13.R12", "FmtSpan::contains", b):
+        rets = [show(p.ret) for p in PathEval(b).run() if p.end == "return"]
+        key = "FmtSpan::contains(other) is (self & other) == other"
+        if len(rets) == 1 and rets[0].replace("clone(arg1)", "arg1").replace("clone(arg2)", "arg2") in ("eq(bitand(arg1, arg2), arg2)", "eq(arg2, bitand(arg1, arg2))", "eq(bitand(arg2, arg1), arg2)"):
+            ck.ok("C13.R12", key, fn=b.path)
+        else:
+            ck.bad("C13.R12", key, where(b.raw["sp"]), "contains returns %s" % rets, fn=b.path)
+    for pt in ("new", "enter", "exit", "close"):
+        b = F.body(P + "FmtSpanConfig::trace_" + pt)
+        if not ck.anchor("C13.R12", "FmtSpanConfig::trace_" + pt, b):
+            continue
+        rets = [show(p.ret) for p in PathEval(b).run() if p.end == "return"]
+        key = "trace_%s() asks whether the configuration contains %s" % (pt, pt.upper())
+        if rets == ["contains(arg1.kind, FmtSpan::%s)" % pt.upper()]:
+            ck.ok("C13.R12", key, fn=b.path)
+        else:
+            ck.bad("C13.R12", key, where(b.raw["sp"]), "trace_%s returns %s" % (pt, rets), fn=b.path)
 
 
 def r11(ck, F):
